@@ -3,7 +3,7 @@ CONSTANTS
   VB = 4
   Maxes = {7, 12}
   Caps = {1, 2}
-  Sizes = {0, 1, 3, 4, 5, 6, 9, 10, 12}
+  Sizes = {0, 1, 3, 4, 5, 9, 10, 12}
   MaxCalls = 3
 VIEW View
 INVARIANTS FIFOExactlyOnce QueueIsKept DroppedOnlyWhenFull ClosedFlushed BatchWithinMax PendingSizeExact QueueBounded
